@@ -377,6 +377,21 @@ pub struct SinkGateCase {
 
 pub struct SinkGateSub;
 
+/// Waits for a condition that another thread establishes unconditionally: yields first, then
+/// sleeps between looks (when there are more runnable threads than cores a pure yield loop
+/// starves the very thread it waits for). The sleep is a back-off, not an oracle.
+fn wait_until(mut cond: impl FnMut() -> bool) {
+    let mut n = 0u32;
+    while !cond() {
+        n += 1;
+        if n < 200 {
+            std::thread::yield_now();
+        } else {
+            std::thread::sleep(std::time::Duration::from_micros(50));
+        }
+    }
+}
+
 enum AnySink {
     Slot(EventSlot<u64>),
     Buf(EventBuffer<u64>),
@@ -412,7 +427,7 @@ impl SubCheck for SinkGateSub {
         "MT-real-threads"
     }
     fn strategy(&self) -> BoxedStrategy<SinkGateCase> {
-        (any::<bool>(), 1u8..6, 1u8..4, prop_oneof![3 => 3u8..30, 1 => 30u8..120], any::<bool>())
+        (any::<bool>(), 1u8..6, 1u8..4, prop_oneof![6 => 2u8..10, 1 => 10u8..40], any::<bool>())
             .prop_map(|(slot, cap, writers, cycles, start_closed)| SinkGateCase { slot, cap, writers, cycles, start_closed })
             .boxed()
     }
@@ -424,6 +439,8 @@ impl SubCheck for SinkGateSub {
         let epoch = Arc::new(AtomicU64::new(1));
         let stop = Arc::new(AtomicBool::new(false));
         let done: Arc<Vec<AtomicU64>> = Arc::new((0..n).map(|_| AtomicU64::new(0)).collect());
+        let pause = Arc::new(AtomicBool::new(false));
+        let paused: Arc<Vec<AtomicBool>> = Arc::new((0..n).map(|_| AtomicBool::new(false)).collect());
         let mut sink;
         let mut hs = Vec::new();
         macro_rules! spawn_writers {
@@ -431,9 +448,17 @@ impl SubCheck for SinkGateSub {
                 for wi in 0..n {
                     let w = $w;
                     let (epoch, stop, done) = (epoch.clone(), stop.clone(), done.clone());
+                    let (pause, paused) = (pause.clone(), paused.clone());
                     hs.push(std::thread::spawn(move || {
                         let mut j = 0u64;
                         while !stop.load(Ordering::SeqCst) {
+                            if pause.load(Ordering::SeqCst) {
+                                // between two writes: this writer holds nothing
+                                paused[wi].store(true, Ordering::SeqCst);
+                                wait_until(|| !pause.load(Ordering::SeqCst) || stop.load(Ordering::SeqCst));
+                                paused[wi].store(false, Ordering::SeqCst);
+                                continue;
+                            }
                             let e = epoch.load(Ordering::SeqCst);
                             j = (j + 1) & 0xFFFF_FFFF;
                             w.write((e << 36) | ((wi as u64) << 32) | j);
@@ -456,9 +481,7 @@ impl SubCheck for SinkGateSub {
         let publish = |epoch: &AtomicU64| epoch.fetch_add(1, Ordering::SeqCst) + 1;
         let wait_all = |e: u64| {
             for wi in 0..n {
-                while done[wi].load(Ordering::SeqCst) < e {
-                    std::thread::yield_now();
-                }
+                wait_until(|| done[wi].load(Ordering::SeqCst) >= e);
             }
         };
         let mut verdict = None;
@@ -503,21 +526,22 @@ impl SubCheck for SinkGateSub {
             let eo = publish(&epoch);
             wait_all(eo);
             // every writer has completed a write that started after `open` returned; a write is
-            // only abandoned when another write holds the slot, and that one then lands
-            let mut got = None;
-            for _ in 0..10_000 {
-                if let Some(v) = sink.next() {
-                    got = Some(v);
-                    break;
-                }
-                std::thread::yield_now();
+            // only abandoned when another write holds the slot, and that one then lands. The
+            // read is taken with the writers parked between two writes (a read of an EventSlot
+            // that collides with a write returns nothing, and a writer can be descheduled while
+            // it holds the slot: no bound on retries would be sound)
+            pause.store(true, Ordering::SeqCst);
+            for wi in 0..n {
+                wait_until(|| paused[wi].load(Ordering::SeqCst));
             }
+            let got = sink.next();
+            pause.store(false, Ordering::SeqCst);
             match got {
                 Some(_) => accepted_after_open += 1,
                 None => {
                     verdict = Some(sink_fail(
                         "reopened-sink-ignores-writes",
-                        format!("cycle {}: the {} was reopened before gate epoch {}, every writer completed writes that started afterwards, and 10000 reads found nothing", cyc, kind, eo),
+                        format!("cycle {}: the {} was reopened before gate epoch {}, every writer completed a write that started afterwards, and with all writers parked the sink yields nothing", cyc, kind, eo),
                     ));
                     break;
                 }
@@ -537,7 +561,7 @@ impl SubCheck for SinkGateSub {
         if c.start_closed {
             cl.push("created-closed");
         }
-        Verdict::pass(c.cycles >= 5 && accepted_after_open > 0, cl)
+        Verdict::pass(c.cycles >= 3 && accepted_after_open > 0, cl)
     }
 }
 
